@@ -320,6 +320,25 @@ def protocol_get_model(ctx, repo, rule):
     ctx.floor(rule, "protocol.get scenarios interpreted", n, 7)
 
 
+def request_lock_delegates(ctx, repo, rule):
+    """the request lock's own __aenter__ / __aexit__ (where the class defines them) await the asyncio lock's on EVERY path:
+    an early return on the exception path of __aexit__ leaves the lock held for good - the transfer that was cancelled
+    inside it is the last one the connection ever makes"""
+    dl = repo.cls("DbgLock", required=False)
+    if dl is not None:
+        for nm in ("__aenter__", "__aexit__"):
+            m = dl.methods.get(nm)
+            if m is None:
+                continue  # inherited: asyncio's own
+            gm = cfg_of(m)
+            sup = [n for n in gm.stmt_nodes() if n.suspends and any(
+                call_name(c) == nm and isinstance(c.func.value, ast.Call) and ast.unparse(c.func.value.func) == "super" for c in n.calls())]
+            ok = bool(sup) and any(gm.pdom(s, gm.entry) for s in sup)
+            ctx.ob(rule, f"DbgLock.{nm}::delegates", ok, f"DbgLock.{nm} does not await super().{nm}() on every path (lock would not be taken/released)", m.loc)
+        ctx.ob(rule, "DbgLock::is-asyncio-lock", any("Lock" in b for b in dl.bases), "DbgLock no longer derives from asyncio.Lock", dl.loc)
+
+
+
 def check(ctx):
     repo = Repo()
     ctx.rule("R1", "GeckoAsyncUdpProtocol.get: loop bounded by retry_count (strict decrement on every cycle), request built fresh inside the loop, exactly one send per attempt, handler returned only on the wait_for_response-true edge, None on exhaustion, default bound = GeckoConfig.PROTOCOL_RETRY_COUNT")
@@ -469,18 +488,7 @@ def check(ctx):
     others = [f.qual for f in repo.all_functions() if f.qual not in (init.qual,) and any(
         isinstance(x, ast.Attribute) and isinstance(x.ctx, ast.Store) and ast.unparse(x) == lock_attr for x in walk_no_nested(f.node)) and f.cls and f.cls.short == PROTO]
     ctx.ob("R2", f"{PROTO}::lock-never-replaced", not others, f"lock attribute reassigned in {others}")
-    dl = repo.cls("DbgLock", required=False)
-    if dl is not None:
-        for nm in ("__aenter__", "__aexit__"):
-            m = dl.methods.get(nm)
-            if m is None:
-                continue  # inherited: asyncio's own
-            gm = cfg_of(m)
-            sup = [n for n in gm.stmt_nodes() if n.suspends and any(
-                call_name(c) == nm and isinstance(c.func.value, ast.Call) and ast.unparse(c.func.value.func) == "super" for c in n.calls())]
-            ok = bool(sup) and any(gm.pdom(s, gm.entry) for s in sup)
-            ctx.ob("R2", f"DbgLock.{nm}::delegates", ok, f"DbgLock.{nm} does not await super().{nm}() on every path (lock would not be taken/released)", m.loc)
-        ctx.ob("R2", "DbgLock::is-asyncio-lock", any("Lock" in b for b in dl.bases), "DbgLock no longer derives from asyncio.Lock", dl.loc)
+    request_lock_delegates(ctx, repo, "R2")
 
     # ---- R3 who may send ----------------------------------------------------
     st = []
